@@ -16,6 +16,7 @@ fn main() {
     let mut replay_file = None;
     let mut scale = 1.0f64;
     let mut write_evidence = true;
+    let mut has_fuzz_query = false;
     let mut emit_corpus: Option<String> = None;
     let mut explicit_tier = None;
     let mut i = 0;
@@ -28,6 +29,7 @@ fn main() {
             "--replay" => { i += 1; replay_file = args.get(i).cloned(); }
             "--scale" => { i += 1; scale = args.get(i).and_then(|s| s.parse().ok()).unwrap_or(1.0); }
             "--no-evidence" => write_evidence = false,
+            "--has-fuzz" => has_fuzz_query = true,
             "--emit-corpus" => { i += 1; emit_corpus = args.get(i).cloned(); }
             "--list" => {
                 for p in props::all() {
@@ -51,6 +53,9 @@ fn main() {
         Some(p) => p,
         None => { eprintln!("unknown property {}", prop); std::process::exit(2) }
     };
+    if has_fuzz_query {
+        std::process::exit(if p.fuzz { 0 } else { 1 });
+    }
     install_silent_panic_hook();
     if let Some(dir) = emit_corpus {
         // seed corpus for the libFuzzer target: a few generated cases per sub-check and class
